@@ -48,6 +48,23 @@ impl Default for InpInternPool {
 /// the i-th symbol id (dfa.rs numbers the symbols of the pool 0, 1, .. and stores them as u32)
 pub closed spec fn id_of(i: int) -> InpId { InpId(i as u32) }
 
+/// the index an id stands for
+pub closed spec fn ix_of(id: InpId) -> int { id.0 as int }
+
+pub proof fn lemma_ix_of_id_of(i: int)
+    requires 0 <= i <= u32::MAX
+    ensures ix_of(id_of(i)) == i
+{
+}
+
+/// the index an automaton id stands for
+pub closed spec fn dfa_ix(id: DFAId) -> int { id.0 as int }
+
+proof fn lemma_dfa_ix(id: DFAId)
+    ensures dfa_ix(id) == id.0 as int
+{
+}
+
 /// distinct indices below 2^32 are distinct ids
 pub proof fn lemma_id_of_inj(i: int, j: int)
     requires 0 <= i <= u32::MAX, 0 <= j <= u32::MAX, id_of(i) == id_of(j)
@@ -83,14 +100,6 @@ impl DFA {
 impl DFA {
     #[verifier::external_body]
     pub fn minimize(self) -> (r: DFA)
-    { unimplemented!() }
-}
-
-/// derived Clone of regex::Regex returns an equal value (the follow cache is cloned with it)
-impl Clone for Regex {
-    #[verifier::external_body]
-    fn clone(&self) -> (r: Regex)
-        ensures r == *self
     { unimplemented!() }
 }
 
